@@ -119,6 +119,8 @@ impl DataStorage {
         }
         self.applied_pack_ids.clear();
         self.committed_objects.clear();
+        // Objects of packs that are not stored any more must not stay readable from the cache
+        self.cache.lock().unwrap().clear();
         let pack_list = self.adapter.read().unwrap().list_objects(PACK_EXTENSION)?;
         if !pack_list.is_empty() {
             for i in &pack_list {
